@@ -187,6 +187,9 @@ pub fn o_extended(input: &[u8], p: &P) -> Out {
 		if g0.metadata != g.metadata || g0.gecko_codes != g.gecko_codes {
 			return Err(e("meta-differs", "metadata or gecko codes differ from the un-extended replay".into()));
 		}
+		if g0.quirks.map_or(false, |q| q.double_game_end) != g.quirks.map_or(false, |q| q.double_game_end) {
+			return Err(e("quirks-differ", format!("the doubled Game End is recognised in the un-extended replay ({:?}) but not with longer payloads ({:?})", g0.quirks, g.quirks)));
+		}
 		// the skip_frames path takes the Game End size from the table as well
 		if g.end.is_some() {
 			let gs = read_slp(input, true, p.hash).map_err(|f| e(&format!("skip-read-failed:{}", f.key()), format!("a newer-version replay with longer payloads does not read with skip_frames: {}", f.describe())))?;
